@@ -17,6 +17,8 @@ for n in sorted(os.listdir(os.path.join(root, 'seeded'))):
     for l in open(os.path.join(root, 'seeded', n, 'patch.diff')):
         if l.startswith('+++ b/'): files.add(l[6:].strip())
     taken.setdefault(meta['breaks_property'], []).append((n, sorted(files), meta['needs_to_manifest']))
+all_taken = sorted({(f[0] if f else '?', n.split('-',1)[1]) for v in taken.values() for n, f, _ in v})
+global_list = '\n'.join(f'  - {f}: {n}' for f, n in all_taken)
 os.makedirs(os.path.join(root, 'work', 'wave'), exist_ok=True)
 for i in ids or sorted(props):
     wt = f'/tmp/mut/{i}{suffix}'
@@ -38,6 +40,9 @@ Your task: make ONE small, realistic change to the library source (the kind of s
 
 Earlier experiments already used the following locations/mechanisms for this property; pick a DIFFERENT function and a DIFFERENT mechanism (ideally a different file or a different clause of the property):
 {prev if prev else '  (none)'}
+
+Changes that experiments for OTHER properties already used (file: short name) - do not deliver one of these again, nor the same edit under another name:
+{global_list}
 
 {('Suggested area for this round (the clauses of the property no earlier experiment has touched): ' + focus[i] + '.' + chr(10) + chr(10)) if i in focus else ''}Deliverables, all inside {wt}:
   1. The source change itself, left applied in the working tree, and additionally saved as a patch: `cd {wt} && git diff > MUTANT.diff` (MUTANT.diff must contain only the library change, not the demonstration; so create the diff before adding untracked files, or make sure untracked demo files are not in it - `git diff` ignores untracked files, which is what we want).
